@@ -79,10 +79,12 @@ var vAnnVals = []string{"", "true", "false", "TRUE", "x", "{", "[", "]", "- a\n-
 	"ctr0:\n- match:\n    key: ''\n    operator: In\n", "- - - -", "!!binary x", "&a [*a]", "fixed", "dyn", "reserved", "default", "nosuchballoon",
 	"1000000000000", "4k", "1G", "100Mi", "/dev/*", "type: glob\npaths: [ \"[\" ]", "type: prefix\npaths: []", "mounts,devices", "none", "all,none", "high", "low", "normal", "none"}
 
+var vAffinityKeys = []string{":", ":x", ":,", "::", ":a:b", ":,a,b", ":/pod/name/name", "", "pod/", "/", "labels/", "labels", "pod/labels/", "tags/", "name", "pod/name", "namespace", "qosclass", "pod/qosclass",
+	"labels/app", "tags/t", ":;name;namespace", ":.", "\x00", strings.Repeat(":", 50), ":id", ":,;", ":,name", ":,,", "pod/:x", ":,:", "id", "uid", "pod/uid", "pod/id"}
+
 // vAffinityAnn: full-notation (anti-)affinity annotations with odd scope/match keys, operators and values.
 func vAffinityAnn(rng *rand.Rand) string {
-	keys := []string{":", ":x", ":,", "::", ":a:b", ":,a,b", ":/pod/name/name", "", "pod/", "/", "labels/", "labels", "pod/labels/", "tags/", "name", "pod/name", "namespace", "qosclass", "pod/qosclass",
-		"labels/app", "tags/t", ":;name;namespace", ":.", "\x00", strings.Repeat(":", 50)}
+	keys := vAffinityKeys
 	ops := []string{"Equals", "NotEqual", "In", "NotIn", "Exists", "NotExist", "AlwaysTrue", "Matches", "MatchesNot", "MatchesAny", "MatchesNone", "Bogus", "", "equals"}
 	vals := []string{"[]", "[ a ]", "[ a, b ]", "[ \"*\" ]", "[ \"[\" ]", "[ \"\" ]", "a", "{}", "null"}
 	k := func() string { return strconv.Quote(keys[rng.Intn(len(keys))]) }
@@ -98,7 +100,12 @@ func vAffinityAnn(rng *rand.Rand) string {
 	if rng.Intn(5) == 0 {
 		w = []string{"0", "99999999999999999999", "x", "1.5"}[rng.Intn(4)]
 	}
-	switch rng.Intn(4) {
+	switch rng.Intn(6) {
+	case 4:
+		// absent (null) list elements next to full-notation ones
+		return fmt.Sprintf("ctr%d:\n- null\n- match: %s\n", rng.Intn(3), expr())
+	case 5:
+		return fmt.Sprintf("{\"ctr%d\": [{\"match\": %s}, null]}", rng.Intn(3), "{\"key\": \"name\", \"operator\": \"Exists\"}")
 	case 0:
 		return fmt.Sprintf("ctr%d:\n- scope: %s\n  match: %s\n  weight: %s\n", rng.Intn(3), expr(), expr(), w)
 	case 1:
@@ -249,6 +256,39 @@ func TestVerifC14Chaos(t *testing.T) {
 			call("init-remove", func() error { return h.m.nri.RemoveContainer(ctx, p0.nri(), c0.nri()) })
 			call("init-stoppod", func() error { return h.m.nri.StopPodSandbox(ctx, p0.nri()) })
 			call("init-removepod", func() error { return h.m.nri.RemovePodSandbox(ctx, p0.nri()) })
+		}
+		// systematic sweep (first history of each policy): every odd expression key in scope and in match position of
+		// both affinity annotations, and every interpreted annotation key with every odd value, each on a pod of its
+		// own with one container going through the plain lifecycle
+		if i < 2 {
+			k := 0
+			sweep := func(ann map[string]string) {
+				k++
+				p := &vPod{id: fmt.Sprintf("sw%d", k), name: fmt.Sprintf("sw%d", k), ns: "default", qos: "Burstable", ann: ann}
+				c := &vCtr{id: fmt.Sprintf("swc%d", k), name: "ctr0", pod: p, milli: 500}
+				call("sweep-runpod "+p.id, func() error { return h.m.nri.RunPodSandbox(ctx, p.nri()) })
+				call("sweep-create "+c.id, func() error { _, _, err := h.m.nri.CreateContainer(ctx, p.nri(), c.nri()); return err })
+				call("sweep-stop "+c.id, func() error { _, err := h.m.nri.StopContainer(ctx, p.nri(), c.nri()); return err })
+				call("sweep-remove "+c.id, func() error { return h.m.nri.RemoveContainer(ctx, p.nri(), c.nri()) })
+				call("sweep-removepod "+p.id, func() error { return h.m.nri.RemovePodSandbox(ctx, p.nri()) })
+			}
+			okExpr := "{ key: name, operator: Exists }"
+			for _, key := range vAffinityKeys {
+				for _, ak := range []string{"affinity", "anti-affinity"} {
+					odd := fmt.Sprintf("{ key: %s, operator: \"Exists\" }", strconv.Quote(key))
+					sweep(map[string]string{vKey + "/" + ak: fmt.Sprintf("ctr0:\n- scope: %s\n  match: %s\n", odd, okExpr)})
+					sweep(map[string]string{vKey + "/" + ak: fmt.Sprintf("ctr0:\n- scope: %s\n  match: %s\n", okExpr, odd)})
+					sweep(map[string]string{vKey + "/" + ak: fmt.Sprintf("ctr0:\n- match: %s\n", odd)})
+				}
+			}
+			for _, ak := range vAnnKeys {
+				for _, av := range vAnnVals {
+					if os.Getenv("VERIF_TIER") != "thorough" && rng.Intn(4) != 0 {
+						continue
+					}
+					sweep(map[string]string{ak + "." + vKey + []string{"", "/pod", "/container.ctr0"}[rng.Intn(3)]: av})
+				}
+			}
 		}
 		nev := 20 + rng.Intn(60)
 		for j := 0; j < nev; j++ {
